@@ -302,10 +302,12 @@ def run(rep: Report, prog: Program, tier: str) -> None:
             out.append((send_ms, arr, size, ssrc))
         if kind.startswith("sparse"):
             times = {"sparse: 0, 10, 3500 ms": (0, 10, 3500), "sparse: long pauses": (0, 2000, 2010, 5000, 9000, 9010, 14000),
+                     "sparse: several packets in the same millisecond at the start and after a pause": (0, 0, 0, 1, 1, 40, 2500, 2500, 2500, 2501, 2600),
                      "sparse: 200 ms of packets, 1.6 s pause, resume": tuple(range(0, 200, 10)) + tuple(range(1800, 3400, 10))}[kind]
             out = [(t, 1000 + t, 1200, 1234) for t in times]
         return out
-    scen = [("growing queueing delay (over-use)", 130), ("sparse: 0, 10, 3500 ms", 0), ("sparse: long pauses", 0)]
+    scen = [("growing queueing delay (over-use)", 130), ("sparse: 0, 10, 3500 ms", 0), ("sparse: long pauses", 0),
+            ("sparse: several packets in the same millisecond at the start and after a pause", 0)]
     if tier == "thorough":
         scen = [("growing queueing delay (over-use)", 300), ("steady, two SSRCs, some empty packets", 420), ("bursts", 300),
                 ("sparse: 0, 10, 3500 ms", 0), ("sparse: long pauses", 0), ("sparse: 200 ms of packets, 1.6 s pause, resume", 0)]
@@ -321,6 +323,12 @@ def run(rep: Report, prog: Program, tier: str) -> None:
                     if ssrc not in seen:
                         seen.append(ssrc)
                     r = ph.run_method(add, est, [], dict(abs_send_time=(origin + send_ms * 262) & 0xFFFFFF, arrival_time_ms=arr, payload_size=size, ssrc=ssrc))
+                    # the measurement covers exactly the packets of the last window
+                    W_ = est.incoming_bitrate._window_size
+                    in_win = sum(sz for (_s, a_, sz, _x) in history(kind, n)[: i + 1] if arr - W_ < a_ <= arr)
+                    if est.incoming_bitrate._total.value != in_win and problem is None:
+                        problem = (f"packet #{i} (arrival {arr} ms): the rate counter holds {est.incoming_bitrate._total.value} bytes, the packets of the last {W_} ms carry {in_win}: "
+                                   "the measurement does not cover exactly the packets of the window")
                     if r is not None:
                         br, ss = r
                         if not (isinstance(br, int) and not isinstance(br, bool) and 0 <= br < (0x3FFFF << 63)) or sorted(ss) != sorted(seen) or len(ss) > 255:
@@ -342,6 +350,52 @@ def run(rep: Report, prog: Program, tier: str) -> None:
             rep.fail(mk_finding(prog, PROP, "C15-PIPE", add, add.node, f"[{label}] {problem}", construct="estimator pipeline: " + problem.split(":")[0][:50]))
         else:
             rep.ok("C15-PIPE", label, sample=(f"{len(a)} estimates, last {a[-1][1]} bit/s" if a else "no estimate yet") + ", identical across the send-time wrap")
+
+    # ---- C15-STALE: the detector's verdict used for the decision to update and handed to the rate controller is the one after detect() ran for this packet
+    rep.rule("C15-STALE", "the over-use verdict that drives the estimate update is read after detect() has run for the packet", min_instances=2)
+    from engine.events import EventsDomain as _ED
+    fresh_sites = []
+
+    def _is_state_call(x):
+        return isinstance(x, ast.Call) and unparse(x.func) == "self.detector.state"
+
+    def _ev_fresh(node, f):
+        if isinstance(node, ast.Call) and unparse(node.func) == "self.detector.detect":
+            return ["-fresh"]
+        if isinstance(node, ast.Assign) and _is_state_call(node.value):
+            return ["fresh"]
+        return []
+    state_vars = {unparse(n.targets[0]) for n in walk_no_nested(add.node) if isinstance(n, ast.Assign) and _is_state_call(n.value)}
+
+    def _ob_fresh(node, st, f):
+        uses = []
+        if isinstance(node, ast.Call) and unparse(node.func) == "self.rate_control.update" and node.args:
+            uses.append(("argument of rate_control.update", node.args[0], node))
+        if isinstance(node, (ast.If, ast.Assign, ast.Expr, ast.Return)):
+            hdr = node.test if isinstance(node, ast.If) else node
+            for c in ast.walk(hdr):
+                if isinstance(c, ast.Compare) and any("OVERUSING" in unparse(x) for x in c.comparators + [c.left]):
+                    other = c.left if "OVERUSING" not in unparse(c.left) else c.comparators[0]
+                    uses.append(("over-use test", other, c))
+        for what, expr, site in uses:
+            if _is_state_call(expr):
+                fresh_sites.append((what, site, True))
+            elif isinstance(expr, ast.Name) and expr.id in state_vars:
+                fresh_sites.append((what, site, "fresh" in st.events))
+    _ED(prog, _ev_fresh, _ob_fresh, kill_guards_on_call=False).run(add)
+    seen_sites = set()
+    for what, site, ok in fresh_sites:
+        key = (what, getattr(site, "lineno", 0))
+        if key in seen_sites:
+            continue
+        seen_sites.add(key)
+        if ok:
+            rep.ok("C15-STALE", f"add(): {what} @ line {getattr(site, 'lineno', 0)} uses the verdict after detect()", sample=unparse(site)[:70])
+        else:
+            rep.fail(mk_finding(prog, PROP, "C15-STALE", add, site, f"the {what} uses a detector verdict that was read before detect() ran for this packet: on the packet that first shows over-use the rate "
+                                "controller still sees the previous state and no 85 % cut is applied although the detector says OVERUSING", construct=f"stale detector verdict in the {what}"))
+    if len(seen_sites) < 2:
+        raise AnalysisError(f"C15-STALE: only {len(seen_sites)} uses of the detector verdict found in RemoteBitrateEstimator.add")
 
     # ---- C15-RATE: RateCounter evaluated against "the bytes that arrived within the last window_size ms"
     rep.rule("C15-RATE", "RateCounter.rate equals the bytes of exactly the packets in the last window, zero-size packets included", min_instances=5)
